@@ -815,6 +815,34 @@ func (e *Env) call(n ECall) TVal {
 		vc.declareFun(qt, sorts, SBool)
 		e.st.assume(app(qt, as...))
 		return TVal{T: Term{"true", SBool}}
+	case "declaredConst":
+		// declaredConst(x, "pkg.Type"): x equals one of the constants declared with that named type
+		// (read from the loaded package, so a new constant widens the obligation without editing the contract)
+		if !argc(2) {
+			return TVal{}
+		}
+		x := e.tr(n.Args[0])
+		ts, ok := n.Args[1].(EStr)
+		if !ok {
+			return e.errf("declaredConst needs a type name literal")
+		}
+		ty, _ := e.resolveType(ts.V)
+		nt, ok2 := ty.(*types.Named)
+		if ty == nil || !ok2 {
+			return e.errf("declaredConst: unknown named type %s", ts.V)
+		}
+		var alts []string
+		sc := nt.Obj().Pkg().Scope()
+		for _, name := range sc.Names() {
+			if c, ok := sc.Lookup(name).(*types.Const); ok && types.Identical(c.Type(), nt) {
+				cv := e.constVal(c)
+				alts = append(alts, app("=", x.T.S, cv.T.S))
+			}
+		}
+		if len(alts) == 0 {
+			return e.errf("declaredConst: no constant of type %s", ts.V)
+		}
+		return TVal{T: Term{or(alts...), SBool}}
 	case "anyof":
 		// the interface value holding x (boxed with x's static Go type)
 		if !argc(1) {
